@@ -188,6 +188,8 @@ func (w *World) Exec(op Op, ctx context.Context) {
 			val, err = c.P.RevSub(ctx, op.Tok)
 		case "reader":
 			val, err = c.P.ReadAll(ctx, op.Tok, bytes.NewReader(Payload(op.Tok, op.Size)))
+		case "reader-retry":
+			val, err = c.P.ReadAllRetry(ctx, op.Tok, bytes.NewReader(Payload(op.Tok, op.Size)))
 		case "notifyrev":
 			err = c.P.NotifyRev(ctx, op.Tok)
 		case "subf":
